@@ -32,10 +32,15 @@ def run(c):
         "error alone or together with the last octets) for each of the three targets in every run; several spellings of one mailbox (local-part case, NFC/NFD, A-label/U-label) as different "
         "recipients, one refused and one accepted in the same attempt, told apart at the hop by their spelling on the wire; "
         "ground truth = recipients of the transactions the hop acknowledged with 250; model = Model/QueueHop.lean); "
+        "histories with server restarts (C01 run ... R=): before the first attempt (Commit answered by a queue that is already shutting down: the first attempt runs on the meta-data read back from the spool), "
+        "between any two attempts, twice in a row (an instance that delivers nothing), in a third of the cases; every 8th case has somebody failing in the first attempt after the first restart; "
+        "envelopes (C01 run ... E=): message with / without SMTPUTF8, return path ASCII / non-ASCII local part / IDN domain (U- or A-labels), per recipient an ORIGINAL (client-supplied, rewritten) address of one of those shapes "
+        "(MsgMetadata.OriginalRcpts) that the failure report has to name; every 8th case: SMTPUTF8 message whose sender and effective recipients are ASCII, whose original recipient is not, failing for good in the first attempt; "
         "one fault plan per attempt (start / per-recipient / body / per-recipient body status / commit, each ok|temporary|permanent|unclassified, fault density 10-90%); "
         "the REAL queue (time wheel, spool files, DSN generator) runs each to quiescence against a scripted target; the whole call/commit/report trace is compared "
         "with the Lean model's trace; distinct = distinct scenarios",
         explanation="theorems over all recipient lists, kinds, maxTries and plan streams (C01_exactly_one_outcome) and over all next-hop scripts for the three forwarding targets "
-        "(C01_hop_attempt_truthful, C01_hop_exactly_one_outcome, C01_hop_body_fault_not_acked); recipients are opaque identities in the model; models tied to queue.go / remote.go / smtp_downstream.go / smtpconn.go by differential runs",
+        "(C01_hop_attempt_truthful, C01_hop_exactly_one_outcome, C01_hop_body_fault_not_acked) and over all schedules of restarts and all well-formed envelopes "
+        "(Model/QueueRestart.lean: runR_eq, C01_exactly_one_outcome_with_restarts - a restart is transparent, no attempt panics on a nil bookkeeping map, every due report can be generated); recipients are opaque identities in the model; models tied to queue.go / remote.go / smtp_downstream.go / smtpconn.go by differential runs",
         search=search,
     )
